@@ -77,6 +77,8 @@ def make_lctx(case):
         b.set_target_language_configuration_override(Language.WKCV_NAMESPACE_FILE_STEM, case['stem'])
     if case.get('es') is not None:
         b.set_target_language_configuration_override(Language.WKCV_ENABLE_STROPPING, case['es'])
+    if case.get('sn') is not None:
+        b.set_target_language_configuration_override(Language.WKCV_SUPPORT_NAMESPACE, case['sn'])
     return b.create()
 
 
@@ -98,6 +100,10 @@ def run_case(work, case):
     if case.get('stem') is not None and '@ABS@' in case['stem']:
         # an absolute namespace-file stem, confined to this case's own directory
         case = dict(case, stem=case['stem'].replace('@ABS@', os.path.join(cdir, 'absstem')))
+    if case.get('sn') is not None and '@ABS@' in case['sn']:
+        # an absolute support namespace, confined to this case's own directory (NEVER a relative escape: '.' splits the
+        # namespace, so 'x/../..' style values degenerate into the file-system root)
+        case = dict(case, sn=case['sn'].replace('@ABS@', os.path.join(cdir, 'abssn')))
     res['sandbox'] = sandbox
     root_name = types[0][0][0]
     write_types(dsdl, types)
@@ -114,6 +120,8 @@ def run_case(work, case):
     res['es'] = bool(lang.enable_stropping)
     res['ext'] = lang.extension
     res['stem'] = lang.get_config_value(Language.WKCV_NAMESPACE_FILE_STEM, Namespace.DefaultOutputStem)
+    res['sn'] = lang.get_config_value(Language.WKCV_SUPPORT_NAMESPACE, '')
+    res['sn_overridden'] = case.get('sn') is not None
 
     if case.get('mock'):
         parsed = [FakeType(*t) for t in types]      # build_namespace_tree is duck-typed; the source folders exist (write_types)
@@ -130,6 +138,13 @@ def run_case(work, case):
     res['strop_any'] = {n: lang.filter_id(n) for n in sorted(names)}     # coverage statistics only
 
     before = snapshot(cdir, sandbox)
+    try:
+        lang.support_namespace      # validated where it is first consumed (C11_support_namespace_fix.patch); every generator run reads it
+    except ValueError as ex:
+        res['raised'] = str(ex)
+        res['after_build_new_files'] = []
+        res['nodes'] = []
+        return res
     try:
         root = build_namespace_tree(parsed, root_dir, spelled, lctx)
     except ValueError as ex:
@@ -202,6 +217,11 @@ def run_case(work, case):
                 cmd += ['--output-extension', case['ext']]
             if case.get('stem') is not None:
                 cmd += ['--namespace-output-stem', case['stem']]
+            if case.get('sn') is not None:
+                cfg_file = os.path.join(cdir, 'sn.yaml')
+                with open(cfg_file, 'w') as f:
+                    f.write('nunavut.lang.%s:\n  support_namespace: %s\n' % (case['lang'], json.dumps(case['sn'])))
+                cmd += ['--configuration', cfg_file]
             p = subprocess.run(cmd, cwd=sandbox, stdout=subprocess.PIPE, stderr=subprocess.STDOUT, text=True, timeout=300)
             res['cli_rc'] = p.returncode
             res['cli_out'] = p.stdout[-600:]
@@ -218,6 +238,8 @@ def run_case(work, case):
                 cmd3 += ['--output-extension', case['ext']]
             if case.get('stem') is not None:
                 cmd3 += ['--namespace-output-stem', case['stem']]
+            if case.get('sn') is not None:
+                cmd3 += ['--configuration', os.path.join(cdir, 'sn.yaml')]
             p3 = subprocess.run(cmd3, cwd=sb3, stdout=subprocess.PIPE, stderr=subprocess.STDOUT, text=True, timeout=300)
             res['support_rc'] = p3.returncode
             res['support_files'] = sorted(snapshot(sb3))
